@@ -191,6 +191,13 @@ def run(prop, tier, seed):
                 b = rnd.choice(pool_)
                 jobs.append((ident, 'insert', kind, kind + ':insert', [a, unknown[kind], b], None))
                 ident += 1
+        # EVPN routes of types the decoder has no parser for (RFC 9251 SMET 6, RFC 9572 S-PMSI 10, 0, 255) between known ones
+        pool_ = sorted(set(pools.get('evpn', [])))
+        for a in pool_[::(7 if tier == 'quick' else 1)]:
+            for u in ('06' + '04' + '01020304', '0a' + '00', '00' + '02' + 'ffff', 'ff' + '08' + '0001ac1000011710'):
+                b = rnd.choice(pool_)
+                jobs.append((ident, 'insert', 'evpn', 'evpn:insert', [a, u, b], None))
+                ident += 1
         for tl in attr_blocks[:30 if tier == 'quick' else 300]:
             jobs.append((ident, 'insert', 'pathattr', 'pathattr:insert', [''.join(tl[:2]), unknown['pathattr'], ''.join(tl[2:])], None))
             ident += 1
